@@ -336,3 +336,84 @@ func runTurnPort(c *Ctx) {
 			"parseTurnServer tests for a missing port before (or without) applying the default port: a port-less URL the server minted is rejected")
 	}
 }
+
+func init() {
+	Register(&Rule{
+		Name:  "R-RATE-COUNTS-ALL",
+		Props: []string{"C14"},
+		Min:   1,
+		Doc: "the per-connection message-rate limit counts every frame (F37): in the read loop of handleWebSocket every path from a successful ReadMessage to the next iteration passes the limiter (tokenBucket.Allow, or the test that the rate limit is 0) " +
+			"before any `continue` - a frame kind that is skipped in front of the limiter (binary frames) can be sent at any rate without the peer being disconnected",
+		Run: runRateCountsAll,
+	})
+}
+
+func runRateCountsAll(c *Ctx) {
+	p := c.P
+	hw := p.Func("cmd/thruserv.handleWebSocket")
+	rate, _ := p.LookupObj("cmd/thruserv", "serverLimits.msgRatePerSec").(*types.Var)
+	if hw == nil || rate == nil {
+		c.MissingAnchor("cmd/thruserv.handleWebSocket / serverLimits.msgRatePerSec")
+		return
+	}
+	info := hw.Info()
+	cfg := hw.CFG()
+	n := 0
+	cfg.Calls(func(r NodeRef, call *ast.CallExpr) {
+		if !calleeIs(info, call, "github.com/gorilla/websocket", "Conn.ReadMessage") {
+			return
+		}
+		as, ok := r.Node().(*ast.AssignStmt)
+		if !ok || len(as.Lhs) != 3 {
+			return
+		}
+		n++
+		key := fmt.Sprintf("read-loop#%d", n)
+		errObj := ObjOf(info, as.Lhs[2])
+		// success edge of the read
+		var start NodeRef
+		for _, b := range cfg.Blocks {
+			cond, t, fs, okc := CondEdges(b)
+			if !okc {
+				continue
+			}
+			if o, nilOnTrue, okn := NilTest(info, cond); okn && o == errObj && cfg.Dominates(r, NodeRef{b, len(b.Nodes) - 1}) {
+				if nilOnTrue {
+					start = NodeRef{t, -1}
+				} else {
+					start = NodeRef{fs, -1}
+				}
+				break
+			}
+		}
+		if !start.Valid() {
+			c.Unknown(key, call.Pos(), "cannot find the error test of ReadMessage")
+			return
+		}
+		counted := allPathsHit(cfg, start, func(nd ast.Node) bool {
+			hit := false
+			ast.Inspect(nd, func(m ast.Node) bool {
+				switch x := m.(type) {
+				case *ast.CallExpr:
+					if g := p.CalleeInfo(info, x); g != nil && g.Name == "cmd/thruserv.(*tokenBucket).Allow" {
+						hit = true
+					}
+				case *ast.SelectorExpr:
+					if info.Uses[x.Sel] == rate {
+						hit = true // the test of the rate limit itself (0 = no limit)
+					}
+				}
+				return !hit
+			})
+			return hit
+		}, func(nd ast.Node) bool {
+			// reaching the read again (a continue / the loop's back edge) before the limiter: a frame that was not counted
+			return nd == r.Node()
+		})
+		c.Check(counted, key, call.Pos(), "every frame read passes the rate limiter before the loop goes on",
+			"a frame can be read and skipped (`continue`) before the per-connection rate limiter is consulted: frames of that kind (binary) can be sent at any rate, the configured message rate is exceeded without the peer being disconnected")
+	})
+	if n == 0 {
+		c.Bad("read-loop/none", hw.Pos(), "found no ReadMessage loop in handleWebSocket")
+	}
+}
